@@ -663,6 +663,89 @@ def run(prog, rep, tier):
     elif casts == 0:
         raise CheckerError("R8.10: neither checked conversions nor plain casts of c_char bytes found in as_bytes")
 
+    # ------------------------------------------------------------ R8.13 the rendering buffer holds every layout's longest line
+    # FixedStruct::as_bytes renders a record as text into a caller-supplied buffer and gives up
+    # (InfoAsBytes::Fail) when it is full: the line is then cut short or the file's printing stops.
+    # Per layout arm the rendered text is at least its constant labels plus every character-array
+    # field at full length (a lower bound; numbers come on top).  The buffer the coordinator hands
+    # to print_fixedstruct must hold that for every layout.
+    import re as _re8
+    R813 = rep.rule("R8.13", "the coordinator's rendering buffer is at least as long as the longest rendering of any record layout (labels + character fields)")
+    ab_ = prog.body("s4lib::data::fixedstruct::FixedStruct::as_bytes")
+    ft_ = [c for c in ab_.live_calls() if c.d.endswith("::fixedstruct_type")]
+    if len(ft_) != 1 or len(ab_.succ[ft_[0].bb]) != 1 or ab_.term(ab_.succ[ft_[0].bb][0])[0] != "switch":
+        raise CheckerError("as_bytes: dispatch on fixedstruct_type() not found")
+    sw_ = ab_.term(ab_.succ[ft_[0].bb][0])
+    heads_ = [(str(v_), tb_) for v_, tb_ in sw_[2] if tb_ in ab_.live]
+    reach_ = {tb_: ab_.reachable(tb_) for _v, tb_ in heads_}
+
+    def _arrlen(op_, depth=0):
+        l_ = op_local(op_)
+        while l_ is not None and depth < 8:
+            depth += 1
+            m_ = _re8.search(r"\[(?:i8|u8); (\d+)\]", ab_.local_ty(l_) or "")
+            if m_:
+                return int(m_.group(1))
+            ds_ = ab_.defs.get(l_, [])
+            if len(ds_) != 1 or ds_[0][1] == "call":
+                return None
+            rv_ = ds_[0][2]
+            if rv_[0] == "cast":
+                l_ = op_local(rv_[2])
+            elif rv_[0] == "use":
+                l_ = op_local(rv_[1])
+            elif rv_[0] == "ref":
+                l_ = rv_[2][0] if len(rv_[2]) == 1 else None
+                if l_ is None:
+                    # &(*s).field : the type of the reference temp itself was checked above
+                    return None
+            else:
+                return None
+        return None
+    longest = (0, None)
+    for v_, tb_ in heads_:
+        own_ = set(reach_[tb_])
+        for tb2, r2 in reach_.items():
+            if tb2 != tb_:
+                own_ -= r2
+        labels_ = 0
+        for bb in own_:
+            for st in ab_.stmts(bb):
+                if st[0] == "=" and st[2][0] == "use" and st[2][1][0] == "k" and isinstance(st[2][1][2], str) and "str" in str(st[2][1][1]):
+                    labels_ += len(st[2][1][2].encode())
+        chars_ = [x_ for x_ in (_arrlen(c.args[0]) for c in ab_.live_calls() if c.bb in own_ and c.d.endswith("::iter") and "slice" in c.d and c.args) if x_]
+        lb_ = labels_ + sum(chars_)
+        rep.examined(R813, "as_bytes|layout %s" % v_, sample={"layout_discriminant": v_, "label_bytes": labels_, "character_fields": chars_, "lower_bound_of_longest_line": lb_})
+        if lb_ > longest[0]:
+            longest = (lb_, v_)
+    if longest[0] < 200 or len(heads_) < 12:
+        raise CheckerError("R8.13: implausible layout inventory (%d arms, longest %d)" % (len(heads_), longest[0]))
+    nbuf = 0
+    for sb_ in prog.bodies():
+        if not (sb_.path.startswith("s4::") or sb_.path.startswith("s4lib::")) or "_tests" in sb_.path or sb_.path.startswith("s4lib::printer::printers::PrinterLogMessage::"):
+            continue
+        for c in sb_.live_calls():
+            if not (c.d.endswith("PrinterLogMessage::print_fixedstruct") or c.d.endswith("FixedStruct::as_bytes")) or not c.args:
+                continue
+            for o_ in sb_.origins(c.args[-1]):
+                nbuf += 1
+                size_ = None
+                if o_[0] == "repeat":
+                    st = sb_.stmts(o_[1])[o_[2]]
+                    try:
+                        size_ = int(st[2][2])
+                    except Exception:
+                        size_ = None
+                elif o_[0] in ("local", "arg"):
+                    m_ = _re8.search(r"\[u8; (\d+)\]", sb_.local_ty(o_[1]) or "")
+                    size_ = int(m_.group(1)) if m_ else None
+                rep.examined(R813, "%s|buffer" % sb_.path, sample={"site": sb_.path, "line": c.line, "buffer_bytes": size_, "needed_at_least": longest[0], "by_layout": longest[1]})
+                if size_ is not None and size_ < longest[0]:
+                    rep.violation(R813, "%s|buffer|too-short" % sb_.path, "%s (line %d) renders records into a %d-byte buffer, but a record of layout #%s can render to at least %d bytes (labels + full character fields); "
+                                  "as_bytes then stops at the end of the buffer: the line loses its last fields and its newline, or (with colour) the rest of the file is not printed" % (sb_.path.split("::")[-1], c.line, size_, longest[1], longest[0]))
+    if nbuf == 0:
+        raise CheckerError("R8.13: no caller-side rendering buffer found")
+
     return rep.finish(
         "Static necessary-condition check of the accounting-record reader: the ordering index cannot lose records with equal times (key "
         "contains the record offset), the index is walked minimum-first in map order removing the served key, the prefilter loop accepts "
